@@ -151,6 +151,30 @@ def run_gen(case, cc):
     return out
 
 
+def run_hist(case, cc):
+    """one instance, a sequence of generate_data calls; each call recorded and compared with a FRESH instance"""
+    g = cc.CategoricalClassification()
+    calls = []
+    for j, call in enumerate(case["calls"]):
+        try:
+            with Recording():
+                X = np.asarray(call_generate(g, call))
+                trace = list(TRACE)
+            fresh = np.asarray(call_generate(cc.CategoricalClassification(), call))
+        except Exception as e:
+            for n in NAMES:
+                setattr(np.random, n, ORIG[n])
+            return {"ok": False, "call_index": j, "error": "%s: %s" % (type(e).__name__, e),
+                    "tb": traceback.format_exc()[-1200:], "trace": list(TRACE)}
+        same = fresh.shape == X.shape and fresh.dtype == X.dtype and bool((fresh == X).all())
+        o = {"ok": True, "dtype": str(X.dtype), "shape": list(X.shape), "X": X.tolist(), "trace": trace,
+             "same_seed_equal": same}
+        if not same:
+            o["X_second"] = fresh.tolist()
+        calls.append(o)
+    return {"ok": True, "calls": calls}
+
+
 def run_naive(case, gn):
     ORIG["seed"](case["seed"])
     with Recording():
@@ -208,6 +232,8 @@ if import_error is None:
             kind = case.get("kind", "gen")
             if kind == "gen":
                 results.append(run_gen(case, cc))
+            elif kind == "hist":
+                results.append(run_hist(case, cc))
             elif kind == "naive":
                 results.append(run_naive(case, gn))
             else:
